@@ -441,3 +441,75 @@ Print Assumptions C12_wiring_SecondOrderMeasures_zscores.
 
 End Wiring_C12.
 (* ---- WIRING-APPENDIX:END ---- *)
+
+(* ---- PVALUES-APPENDIX:BEGIN (generated by tools/gen_c12_pvalues_appendix.py; do not edit) ---- *)
+(* GenAgree (residual p-values): what matrix/measure.py SAYS NOW for SecondOrderMeasures.pvalues.
+   Gen/PairwiseSrc.v is REWRITTEN FROM THE SOURCE on every check by harness/translate/x_pairwise.py (an `ast`
+   whitelist, fail-closed); [src_Pvalues_blocks_ij] is what _Pvalues.blocks / _calculate_pval say for block
+   (i, j), read through the wiring of SecondOrderMeasures ([None] = the translator could not read it: then
+   only the correspondence ties it).  C12_gen_Pvalues: for ALL sizes and z-score blocks and for EVERY function
+   standing for scipy's norm.cdf the value of that term ([pev false], Base/PairExp.v) is, cell by cell,
+   2 (1 - ncdf(|z|)) of the z-score the zscores measure reports in that cell ([pval_n] of Model/ZscoreP.v on
+   z*|z|; the empty-block guard `0 in zscores.shape` included).  C12_gen_Pvalues_is_pval: whenever that
+   function represents a real function Phi (ncdf(y) = Phi(sqrt y)), this IS [pval Phi z] of
+   Proofs/ZscorePval.v - the definition C12_pval_range / _even / _antitone / _two_tails / _of_square are about. *)
+From Coq Require String.
+From CC Require Base.MeasureExp Base.PairExp Model.ZscoreP Gen.PairwiseSrc Proofs.ZscorePProofs
+     Proofs.GenAgreePairTac Proofs.GenAgreePvalues.
+Section GenAgreePvalues_C12.   (* scopes and imports below end with the section *)
+Import Coq.Strings.String CC.Base.MeasureExp CC.Base.PairExp CC.Model.ZscoreP CC.Gen.PairwiseSrc
+       CC.Proofs.ZscorePProofs CC.Proofs.GenAgreePairTac CC.Proofs.GenAgreePvalues.
+Import Coq.Lists.List.ListNotations CC.Base.XQ.
+Local Close Scope R_scope.
+Local Close Scope Q_scope.
+Local Open Scope string_scope.
+Local Open Scope nat_scope.
+
+Theorem C12_gen_Pvalues :
+  (match src_Pvalues_blocks_00 with
+  | Some e => forall nr nc nrs ncs blk ncdf,
+      pagrees_mat (penv_pv nr nc nrs ncs blk ncdf) (pev false (penv_pv nr nc nrs ncs blk ncdf) e) DR DC
+                  (pv_cell ncdf blk 0 0)
+  | None => True
+  end) /\
+  (match src_Pvalues_blocks_01 with
+  | Some e => forall nr nc nrs ncs blk ncdf,
+      pagrees_mat (penv_pv nr nc nrs ncs blk ncdf) (pev false (penv_pv nr nc nrs ncs blk ncdf) e) DR DCS
+                  (pv_cell ncdf blk 0 1)
+  | None => True
+  end) /\
+  (match src_Pvalues_blocks_10 with
+  | Some e => forall nr nc nrs ncs blk ncdf,
+      pagrees_mat (penv_pv nr nc nrs ncs blk ncdf) (pev false (penv_pv nr nc nrs ncs blk ncdf) e) DRS DC
+                  (pv_cell ncdf blk 1 0)
+  | None => True
+  end) /\
+  (match src_Pvalues_blocks_11 with
+  | Some e => forall nr nc nrs ncs blk ncdf,
+      pagrees_mat (penv_pv nr nc nrs ncs blk ncdf) (pev false (penv_pv nr nc nrs ncs blk ncdf) e) DRS DCS
+                  (pv_cell ncdf blk 1 1)
+  | None => True
+  end).
+Proof. exact (conj gen_Pvalues_blocks_00 (conj gen_Pvalues_blocks_01 (conj gen_Pvalues_blocks_10 gen_Pvalues_blocks_11))). Qed.
+Print Assumptions C12_gen_Pvalues.
+
+Theorem C12_gen_Pvalues_is_pval (ncdf : xq -> xq) (Phi : R -> R) (z p : Q) :
+  represents ncdf Phi ->
+  pval_n ncdf (xmul (Fin z) (xabs (Fin z))) = Fin p ->
+  Q2R p = pval Phi (Q2R z).
+Proof. exact (pval_n_is_pval ncdf Phi z p). Qed.
+Print Assumptions C12_gen_Pvalues_is_pval.
+
+Theorem C12_pvalues_model_cell ncdf ZZ i j : i < nrows ZZ -> j < ncols ZZ ->
+  mnth (pblock_n ncdf ZZ) i j = pval_n ncdf (mnth ZZ i j).
+Proof. exact (pblock_n_cell ncdf ZZ i j). Qed.
+Print Assumptions C12_pvalues_model_cell.
+
+(* non-vacuity: a function that represents a Phi with Phi(1) = 3/4 gives p = 1/2 at z = -1 *)
+Example C12_gen_Pvalues_example :
+  let ncdf := fun y : xq => match y with Fin q => Fin (q * (3 # 4))%Q | _ => NaN end in
+  pval_n ncdf (xmul (Fin (-1)%Q) (xabs (Fin (-1)%Q))) =x= Fin (1 # 2)%Q.
+Proof. vm_compute. reflexivity. Qed.
+
+End GenAgreePvalues_C12.
+(* ---- PVALUES-APPENDIX:END ---- *)
